@@ -6,7 +6,7 @@
      Vs t x' x  :=  Forall2 (fun a' a => a' == a * t) x' x   <->   Forall2 Qeq x' (map (fun a => a * t) x). *)
 From Coq Require Import QArith Qround Qabs Lqa List Bool Arith Lia Setoid Morphisms.
 Import ListNotations.
-From PV Require Import Lib.WLS BSpline.Eval BSpline.EvalProofs BSpline.FitProofs C11.Model.
+From PV Require Import Lib.WLS BSpline.Eval BSpline.EvalProofs BSpline.FitProofs Generated.Combine1fiber C11.Model.
 Open Scope Q_scope.
 
 Local Notation Veq := (Forall2 Qeq).
@@ -301,7 +301,7 @@ Proof.
 Qed.
 
 Lemma grow_Vs t v' v : Vs t v' v ->
-  map (fun f => Qltb (Qabs f) EPS) (smooth3 v') = map (fun f => Qltb (Qabs f) EPS) (smooth3 v) ->
+  map c1f_bad (smooth3 v') = map c1f_bad (smooth3 v) ->
   Vs t (grow v') (grow v).
 Proof.
   intros H Hb. unfold grow. cbv zeta. rewrite Hb, (Vs_length _ _ _ H).
@@ -309,7 +309,7 @@ Proof.
 Qed.
 
 Theorem grow_scale d v' v : Veq v' (map (fun a => a / d) v) ->
-  map (fun f => Qltb (Qabs f) EPS) (smooth3 v') = map (fun f => Qltb (Qabs f) EPS) (smooth3 v) ->
+  map c1f_bad (smooth3 v') = map c1f_bad (smooth3 v) ->
   Veq (grow v') (map (fun a => a / d) (grow v)).
 Proof. intros H Hb. apply Vs_div, grow_Vs; [apply Vs_div, H | exact Hb]. Qed.
 
@@ -419,8 +419,8 @@ Qed.
 (* ================================================================== S7. the scaling law *)
 (* the rescaling does not move any 3-pixel mean of the pre-growth inverse variance across EPS *)
 Definition growth_decisions_agree (s : Q) (c : cin) (fits : list (option gfit)) : Prop :=
-  map (fun f => Qltb (Qabs f) EPS) (smooth3 (snd (stages (scale_cin s c) (map (scale_fit s) fits))))
-  = map (fun f => Qltb (Qabs f) EPS) (smooth3 (snd (stages c fits))).
+  map c1f_bad (smooth3 (snd (stages (scale_cin s c) (map (scale_fit s) fits))))
+  = map c1f_bad (smooth3 (snd (stages c fits))).
 
 Theorem scaling_law s c iv fits :
   0 < s -> c_nspec c = 1%nat -> c_ivar c = Some iv ->
